@@ -42,7 +42,10 @@ def load_decoders(ctx):
     return DECODERS
 
 
-MIN_HITS = {"quick": {"request": 40000, "prefix": 8000, "extreme_len": 8000, "short": 8000, "decoders_seen": 44}, "thorough": {"request": 800000, "prefix": 100000, "extreme_len": 150000, "short": 30000, "decoders_seen": 44}}
+MIN_HITS = {
+    'quick': {"request": 40000, "prefix": 8000, "extreme_len": 8000, "short": 8000, "decoders_seen": 44},
+    'thorough': {"request": 6957792, "prefix": 1138233, "extreme_len": 4452364, "short": 488332, "decoders_seen": 1689},
+}
 
 EXTREMES = [b"\xfc", b"\xfd\xff\xff", b"\xfe\xff\xff\xff\xff", b"\xff" + (2**63).to_bytes(8, "little"), b"\xff" * 9, b"\xfe\x00\x00\x00\x80", b"\x4e\xff\xff\xff\x7f", b"\x4e\xff\xff\xff\xff", b"\x4d\xff\xff", b"\x4c\xff", b"\xfd\x00\x00", b"\x5b" + b"\xff" * 8, b"\x9b" + b"\xff" * 8, b"\xbb" + b"\xff" * 8, b"\x7b" + b"\xff" * 8, b"\x5a\xff\xff\xff\xff"]
 
